@@ -10,7 +10,7 @@ use crate::common::*;
 use crate::gen::{self, GenCfg, Node};
 use crate::rng::{derive, Fnv, Rng};
 use fancy_regex::verif::{self, EndReason, RunStats};
-use fancy_regex::{Captures, NoExpand, Regex};
+use fancy_regex::{Captures, NoExpand, Regex, Replacer};
 use serde_json::{json, Value};
 use std::borrow::Cow;
 use std::collections::HashSet;
@@ -42,6 +42,10 @@ pub enum Tok {
     Dollar,
     Group(usize),
     Name(String, usize),
+    /// `$N` without braces (only generated where the next template character cannot extend the name)
+    GroupBare(usize),
+    /// `$name` without braces (same restriction)
+    NameBare(String, usize),
 }
 
 impl Rep {
@@ -61,6 +65,8 @@ impl Rep {
                         Tok::Dollar => json!(["dollar"]),
                         Tok::Group(n) => json!(["group", n]),
                         Tok::Name(s, n) => json!(["name", s, n]),
+                        Tok::GroupBare(n) => json!(["group_bare", n]),
+                        Tok::NameBare(s, n) => json!(["name_bare", s, n]),
                     })
                     .collect::<Vec<_>>()
             ]),
@@ -87,6 +93,8 @@ impl Rep {
                             "dollar" => Tok::Dollar,
                             "group" => Tok::Group(t.get(1)?.as_u64()? as usize),
                             "name" => Tok::Name(t.get(1)?.as_str()?.to_string(), t.get(2)?.as_u64()? as usize),
+                            "group_bare" => Tok::GroupBare(t.get(1)?.as_u64()? as usize),
+                            "name_bare" => Tok::NameBare(t.get(1)?.as_str()?.to_string(), t.get(2)?.as_u64()? as usize),
                             _ => return None,
                         })
                     })
@@ -104,6 +112,8 @@ impl Rep {
                 Tok::Dollar => s.push_str("$$"),
                 Tok::Group(n) => s.push_str(&format!("${{{}}}", n)),
                 Tok::Name(n, _) => s.push_str(&format!("${{{}}}", n)),
+                Tok::GroupBare(n) => s.push_str(&format!("${}", n)),
+                Tok::NameBare(n, _) => s.push_str(&format!("${}", n)),
             }
         }
         s
@@ -135,8 +145,8 @@ impl Rep {
                     match t {
                         Tok::Lit(l) => out.push_str(l),
                         Tok::Dollar => out.push('$'),
-                        Tok::Group(n) => out.push_str(grp(*n)),
-                        Tok::Name(_, n) => out.push_str(grp(*n)),
+                        Tok::Group(n) | Tok::GroupBare(n) => out.push_str(grp(*n)),
+                        Tok::Name(_, n) | Tok::NameBare(_, n) => out.push_str(grp(*n)),
                     }
                 }
                 out
@@ -357,6 +367,7 @@ pub struct Stats {
     pub wrappers_compared: u64,
     pub vm_insns: u64,
     pub budget_skipped: u64,
+    pub reuse_checks: u64,
     pub digest: u64,
 }
 
@@ -480,6 +491,9 @@ pub fn replay(case: &Value) -> Option<(String, String)> {
     if case["kind"].as_str() == Some("c11-equivalence") {
         return replay_equivalence(case);
     }
+    if case["kind"].as_str() == Some("c11-reuse") {
+        return replay_reuse(case);
+    }
     class_of(&Case::from_json(case)?)
 }
 
@@ -546,6 +560,65 @@ fn equivalence(re: &Regex, text: &str, n: usize, s: &str) -> Option<Found> {
     None
 }
 
+/// One replacer *object* used for two successive calls through `by_ref()`: "for every ... replacer"
+/// includes a replacer that has been used before. Every call must equal the model.
+fn reuse(re: &Regex, text: &str, n: usize, rep: &Rep, m: &Matches) -> Option<Found> {
+    let Some(Outcome::Ok((expect, _))) = model(text, m, n, rep) else { return None };
+    budget::install();
+    macro_rules! twice {
+        ($r:expr, $label:expr) => {{
+            let mut r = $r;
+            for round in 0..2 {
+                budget::arm(budget::DEFAULT_INSNS, 2 * (text.chars().count() as u64 + 3) + 6);
+                let got = guarded(|| re.try_replacen(text, n, r.by_ref()).map(|c| c.to_string()));
+                budget::disarm();
+                match &got {
+                    Outcome::Ok(s) if *s == expect => {}
+                    Outcome::Panic(p) if p == budget::INSN_PAYLOAD => return None,
+                    other => {
+                        return Some(Found {
+                            class: "replacer-reuse-differs".into(),
+                            detail: format!(
+                                "use #{} of one {} replacer through by_ref(): try_replacen({:?}, n={}, {:?}) returned {} ; model gives {:?}",
+                                round + 1, $label, text, n, rep, other.show(), expect
+                            ),
+                        })
+                    }
+                }
+            }
+        }};
+    }
+    match rep {
+        Rep::Identity => twice!(|c: &Captures<'_>| c.get(0).map(|m| m.as_str().to_string()).unwrap_or_default(), "closure"),
+        Rep::ConstClosure(s) => twice!(|_: &Captures<'_>| s.clone(), "closure"),
+        Rep::NoExpand(s) => twice!(NoExpand(s.as_str()), "NoExpand"),
+        Rep::Str(s) | Rep::OwnedString(s) | Rep::CowStr(s) => {
+            twice!(s.as_str(), "&str");
+            twice!(s.clone(), "String");
+            twice!(&s.clone(), "&String");
+            twice!(Cow::<str>::Owned(s.clone()), "Cow::Owned");
+            twice!(Cow::<str>::Borrowed(s.as_str()), "Cow::Borrowed");
+        }
+        Rep::Template(t) => {
+            let tpl = Rep::template_string(t);
+            twice!(tpl.as_str(), "&str template");
+            twice!(tpl.clone(), "String template");
+            twice!(&tpl.clone(), "&String template");
+            twice!(Cow::<str>::Owned(tpl.clone()), "Cow::Owned template");
+            twice!(Cow::<str>::Borrowed(tpl.as_str()), "Cow::Borrowed template");
+        }
+    }
+    None
+}
+
+fn replay_reuse(case: &Value) -> Option<(String, String)> {
+    let re = compile(case["pattern"].as_str()?)?;
+    let text = case["text"].as_str()?;
+    let m = fault_free_matches(&re, text);
+    let rep = Rep::from_json(&case["rep"])?;
+    reuse(&re, text, case["n"].as_u64()? as usize, &rep, &m).map(|f| (f.class, f.detail))
+}
+
 fn replay_equivalence(case: &Value) -> Option<(String, String)> {
     let re = compile(case["pattern"].as_str()?)?;
     equivalence(&re, case["text"].as_str()?, case["n"].as_u64()? as usize, case["s"].as_str()?).map(|f| (f.class, f.detail))
@@ -581,6 +654,22 @@ fn gen_rep(rng: &mut Rng, re: &Regex) -> Rep {
                     // an index up to one past the last group: absent groups expand to nothing
                     _ => Tok::Group(rng.below(ngroups + 1)),
                 });
+            }
+            // un-braced `$N` / `$name` where the following template character cannot be read
+            // as part of the name (names take the longest run of alphanumerics and `_`)
+            for i in 0..toks.len() {
+                let safe_follow = match toks.get(i + 1) {
+                    None => true,
+                    Some(Tok::Lit(l)) => l.chars().next().map_or(true, |c| !(c.is_alphanumeric() || c == '_' || c == '{')),
+                    Some(_) => true, // the next token starts with `$`
+                };
+                if safe_follow && rng.chance(1, 2) {
+                    toks[i] = match &toks[i] {
+                        Tok::Group(n) => Tok::GroupBare(*n),
+                        Tok::Name(s, n) => Tok::NameBare(s.clone(), *n),
+                        other => other.clone(),
+                    };
+                }
             }
             Rep::Template(toks)
         }
@@ -642,6 +731,14 @@ fn job(seed: u64, i: u64) -> (JobOut, Option<Violation>) {
                 let s = rng.pick(&["X", "", "é-"]).to_string();
                 if let Some(f) = equivalence(&re, &text, n, &s) {
                     let replay = json!({"kind": "c11-equivalence", "pattern": pattern, "text": text, "n": n, "s": s});
+                    return (out, Some(Violation::new(PROP, &f.class, f.detail, replay)));
+                }
+            }
+            // the same replacer object used twice through by_ref()
+            if found.is_none() && rng.chance(1, 2) {
+                out.st.reuse_checks += 1;
+                if let Some(f) = reuse(&re, &text, effective_n(&case), &case.rep, &m) {
+                    let replay = json!({"kind": "c11-reuse", "pattern": pattern, "text": text, "n": effective_n(&case), "rep": case.rep.to_json()});
                     return (out, Some(Violation::new(PROP, &f.class, f.detail, replay)));
                 }
             }
@@ -713,6 +810,8 @@ fn add(a: &mut Stats, b: &Stats) {
     a.equivalence_groups += b.equivalence_groups;
     a.wrappers_compared += b.wrappers_compared;
     a.vm_insns += b.vm_insns;
+    a.budget_skipped += b.budget_skipped;
+    a.reuse_checks += b.reuse_checks;
 }
 
 pub fn digest(seed: u64, n: u64, workers: usize) -> Vec<u64> {
@@ -777,6 +876,8 @@ pub fn run(opts: &Opts) -> i32 {
             "borrowed_results": st.borrowed_results,
             "owned_results": st.owned_results,
             "replacer_kind_equivalence_groups": st.equivalence_groups,
+            "replacer_objects_reused_through_by_ref": st.reuse_checks,
+            "calls_skipped_over_instruction_budget": st.budget_skipped,
             "panicking_wrappers_compared": st.wrappers_compared,
         }));
         extra.insert("runs_per_hour".into(), json!(((st.calls as f64) / wall.max(1e-9) * 3600.0) as u64));
